@@ -24,7 +24,7 @@ PROP = "C02"
 
 EVIDENCE = {
     "rule": "one evaluation = one scenario document (mesh, region flags, field kind, form, integrand seed, pool / thread schedules, fault); non-trivial = at least one parallel evaluation ran under a simulated pool with >1 job or under a thread schedule with >= 2 context switches, or a worker fault fired; distinct = distinct (field kind, form kind, flags, pool configuration or schedule digest)",
-    "probes_expected": ["pool:njobs>1", "pool:fallback-np-einsum", "threads:switches", "fault:pool_job", "fault:thread_body", "uniform-broadcast", "absent-block", "out-reuse", "values-passthrough", "mode3", "hess-form", "form-after-region-reload", "shared-test-field-forms", "assembled-again-after-failure", "form-after-geometry-update"],
+    "probes_expected": ["pool:njobs>1", "pool:fallback-np-einsum", "threads:switches", "fault:pool_job", "fault:thread_body", "uniform-broadcast", "absent-block", "out-reuse", "values-passthrough", "mode3", "hess-form", "form-after-region-reload", "shared-test-field-forms", "assembled-again-after-failure", "form-after-geometry-update", "same-form-evaluated-again"],
     "components": {
         "real": ["felupe.assembly (all of it)", "einsumt chunking logic", "numpy einsum", "scipy.sparse"],
         "simulated": ["einsumt thread pool (SimPool: size knob, seeded job order, failing job)", "threading.Thread in the expression API (SimThreads: baton passing at sys.monitoring LINE / STORE_SUBSCR events)"],
@@ -258,6 +258,44 @@ def run_array(doc, log):
         raise Violation(PROP, "ref-sum", f"{site0} raised {type(e).__name__}: {e}", site=site0)
     compare("ref-sum", serial, site0)
     log.ev("serial", d=serial)
+    # history on one form object: integrate() (the caller owns and post-processes the returned
+    # arrays), then assemble() twice, then the integrand arrays are updated in place by a power of
+    # two (exact) and the form is assembled once more -- every call gives the sum of *its* inputs
+    own = [None if f is None else f.copy() for f in funs]
+    form = fem.IntegralForm(own, field, region.dV, u=field if bil else None, **kw)
+    site1 = f"IntegralForm[{doc['fieldkind']},{a['form']},mode={a.get('mode')},same-object]"
+    try:
+        looked = form.integrate(parallel=False)
+        for v in looked:
+            if isinstance(v, np.ndarray) and v.flags.writeable:
+                v += 7.0
+        second = dense(form.assemble(parallel=False, block=block))
+        third = dense(form.assemble(parallel=bool(a["fun_seed"] % 2), block=block))
+        for f in own:
+            if f is not None:
+                f *= 2.0
+        fourth = dense(form.assemble(parallel=False, block=block))
+    except Exception as e:
+        from ..kernel import origin
+
+        if origin(e) == "harness":
+            raise
+        raise Violation(PROP, "ref-sum", f"{site1} raised {type(e).__name__}: {e}", site=site1)
+    compare("ref-sum", second, site1 + ".assemble-after-integrate")
+    compare("ref-sum", third, site1 + ".second-assemble")
+    # (a form may read its integrand when it is evaluated - felupe does - or keep the values it was
+    # created with: either is "the defining sum of the integrand array"; anything else is not)
+    # (axisymmetric forms split the integrand into in-plane and hoop parts when they are created -
+    # some parts are views, some are copies: an in-place update then has no defined meaning and is
+    # not judged there)
+    ok2, rel2 = close_exact_twin(fourth / 2.0, ref, rtol=1e-11, atol=1e-12 * scale)
+    ok1, rel1 = close_exact_twin(fourth, ref, rtol=1e-11, atol=1e-12 * scale)
+    if "axi" in doc["fieldkind"].lower():
+        ok1 = True
+    if not (ok1 or ok2):
+        raise Violation(PROP, "ref-sum", f"{site1}.integrand-updated-in-place: assembled result is neither the sum of the updated nor of the original integrand (rel {min(rel1, rel2):.2e})", site=site1 + ".integrand-updated-in-place")
+    log.count("integrand-read-at-evaluation" if ok2 else "integrand-kept-from-construction")
+    log.count("same-form-evaluated-again")
     sig = []
     fired = []
     for p in a["pools"]:
